@@ -255,6 +255,38 @@ def write_error_section(rng, res, count):
             res["violations"].append(("acknowledged-put-not-stored", "a Put was acknowledged as committed although its bytes are not what the path holds", rep))
 
 
+def transient_write_error_section(rng, res, count):
+    """C10: ONE write of the hub process fails (a disk that was full for a moment: ENOSPC on the k-th `write(2)`, injected with
+    strace; the writes before and after it succeed). Whichever write it is — a chunk of the staging file in the middle of an upload,
+    with later chunks stored fine — every visible path holds initial content or the COMPLETE verified bytes of one Put, and a Put
+    acknowledged as committed is stored in full (seed C10-N: the result of a staging write was assigned, not accumulated, so only
+    the last chunk's result decided; the stream's hash still matched and the short file was committed)."""
+    import subprocess
+    old = bytes(rng.bytes(70_000)); new = bytes(rng.bytes(1_300_000))
+    hn, ho = (bytes.fromhex(x) for x in blake3_hex([new, old]))
+    for k in range(2, 11):
+        tree = {"big.bin": old, "keep.txt": b"kept"}
+        stream = (H.MAGIC + H.frame(H.req_hello()) + H.frame(H.req_put("big.bin", ho, len(new), hn)) + new
+                  + H.frame(H.req_get("keep.txt")) + H.frame(H.req_bye()))
+        with Sandbox("C10") as sb:
+            root = sb.path("hub"); sb.write_tree(root, tree); os.makedirs(os.path.join(root, ".copia"), exist_ok=True)
+            cmd = ["strace", "-f", "-qq", "-o", "/dev/null", "-e", "trace=write", "-e", f"inject=write:error=ENOSPC:when={k}", CLI_BIN, "serve", root]
+            try:
+                r = subprocess.run(cmd, input=stream, env=sb.env, cwd=sb.dir, stdout=subprocess.PIPE, stderr=subprocess.PIPE, timeout=60)
+                rc, out, err = r.returncode, r.stdout, r.stderr.decode("utf-8", "replace")
+            except subprocess.TimeoutExpired as e:
+                rc, out, err = "timeout", e.stdout or b"", ""
+            after = nonstaging(H.hub_tree(root))
+        count("write-error/one-write-fails")
+        toks = parse_replies(out)
+        rep = {"failing_write": k, "rc": rc, "stderr": err[-300:], "replies": [t[:70] for t in toks[:5]], "after": {p_: len(c_) for p_, c_ in after.items()}}
+        for p_, c_ in after.items():
+            if c_ not in (old, new, b"kept"):
+                res["violations"].append(("partial-or-mixed-content-visible", f"with write #{k} of the hub failing once (ENOSPC), hub path {p_} holds {len(c_)} bytes that are neither initial content nor the complete bytes of the Put", rep))
+        if any(t.startswith("put:1") for t in toks) and after.get("big.bin") != new:
+            res["violations"].append(("acknowledged-put-not-stored", f"with write #{k} failing once, the Put was acknowledged as committed although big.bin does not hold its bytes", rep))
+
+
 def lock_window_section(rng, res, count):
     """C03: the window between a server's compare (under the commit lock) and its rename, held open by delaying that server's
     `flock` and `rename` (strace delay injection on server 1 only). f = X. Client 1 sends Put f {expected: None, A} (stale: f
@@ -378,6 +410,7 @@ def run(pid, tier, seed, rundir, model_run):
         lock_window_section(rng, res, count)
     if pid == "C10":
         write_error_section(rng, res, count)
+        transient_write_error_section(rng, res, count)
         hasher_scope_section(rng, res, count)
         refused_put_below_file_section(rng, res, count)
     ncases = 70 * (12 if tier == "thorough" else 1)
